@@ -1,0 +1,138 @@
+//go:build verif
+
+package vm
+
+import (
+	"runtime"
+	"sync"
+	"sync/atomic"
+	"time"
+)
+
+// Verification hooks (C15/C16), build tag `verif` only.
+//
+// verifEvent appends one record to a per-process log with a global sequence number:
+// (seq, goroutine id, kind, promise id, task id). Promise ids are small integers handed
+// out on first sight (the table keeps the promises alive, so an id is never reused while
+// a recording is active). verifYield is a seeded yield point: depending on a PRNG derived
+// from the seed given to VerifStart it does nothing, calls runtime.Gosched() or sleeps
+// for a few microseconds, so that different seeds explore different interleavings.
+//
+// Placement contract (relied upon by the trace validator): a "lock acquired" event is
+// recorded after the Lock() call returned, an "about to unlock" event before Unlock(),
+// "publish" before wg.Done(), "enqueued" after the channel send completed, "dequeued"
+// after the receive completed. Hence the log order of the events that touch one promise
+// mutex is the real order, and every event is recorded no earlier than the operation
+// that enables it.
+
+type VerifEvent struct {
+	Seq     uint64
+	G       uint64 // goroutine id of the actor
+	Kind    string
+	Promise uint64 // 0 = none
+	Task    uint64 // 0 = none
+}
+
+var (
+	verifMu      sync.Mutex
+	verifLog     []VerifEvent
+	verifSeq     uint64
+	verifIDs     map[*Promise]uint64
+	verifNextID  uint64
+	verifOn      atomic.Bool
+	verifRnd     atomic.Uint64
+	verifYieldOn atomic.Bool
+)
+
+// VerifStart clears the log and starts recording. seed == 0 disables the yield points.
+func VerifStart(seed uint64) {
+	verifMu.Lock()
+	verifLog = verifLog[:0:0]
+	verifSeq = 0
+	verifIDs = map[*Promise]uint64{}
+	verifNextID = 0
+	verifMu.Unlock()
+	verifRnd.Store(seed*0x9E3779B97F4A7C15 + 1)
+	verifYieldOn.Store(seed != 0)
+	verifOn.Store(true)
+}
+
+// VerifStop stops recording and returns the log (in sequence order).
+func VerifStop() []VerifEvent {
+	verifOn.Store(false)
+	verifYieldOn.Store(false)
+	return VerifSnapshot()
+}
+
+// VerifSnapshot returns a copy of the log recorded so far.
+func VerifSnapshot() []VerifEvent {
+	verifMu.Lock()
+	out := make([]VerifEvent, len(verifLog))
+	copy(out, verifLog)
+	verifMu.Unlock()
+	return out
+}
+
+func verifID(p *Promise) uint64 {
+	if p == nil {
+		return 0
+	}
+	id, ok := verifIDs[p]
+	if !ok {
+		verifNextID++
+		id = verifNextID
+		verifIDs[p] = id
+	}
+	return id
+}
+
+func verifEvent(kind string, promise, task *Promise) {
+	if !verifOn.Load() {
+		return
+	}
+	g := verifGoid()
+	verifMu.Lock()
+	if verifIDs != nil {
+		verifSeq++
+		verifLog = append(verifLog, VerifEvent{
+			Seq:     verifSeq,
+			G:       g,
+			Kind:    kind,
+			Promise: verifID(promise),
+			Task:    verifID(task),
+		})
+	}
+	verifMu.Unlock()
+}
+
+func verifYield() {
+	if !verifYieldOn.Load() {
+		return
+	}
+	// xorshift on a shared word; races between actors only add entropy
+	x := verifRnd.Load()
+	x ^= x << 13
+	x ^= x >> 7
+	x ^= x << 17
+	verifRnd.Store(x)
+	switch r := x % 16; {
+	case r < 4:
+		runtime.Gosched()
+	case r < 6:
+		time.Sleep(time.Duration(20+(x>>8)%200) * time.Microsecond)
+	}
+}
+
+// verifGoid parses the goroutine id out of the stack header ("goroutine 123 [running]:").
+func verifGoid() uint64 {
+	var buf [64]byte
+	n := runtime.Stack(buf[:], false)
+	var id uint64
+	for _, c := range buf[len("goroutine "):n] {
+		if c < '0' || c > '9' {
+			break
+		}
+		id = id*10 + uint64(c-'0')
+	}
+	return id
+}
